@@ -228,6 +228,15 @@ func (c *compiler) expPrefix(key string) string {
 	return c.ExportName + "." + key
 }
 
+// shadowsBuiltin: the name of a builtin (len, delete, copy ...) means a local variable or a function of the package when
+// there is one: the call is then an ordinary call, not the builtin's instruction.
+func (c *compiler) shadowsBuiltin(name *token) bool {
+	if name.Symbol != "(name)" {
+		return false
+	}
+	return c.Locals.Exists(name.Text) || c.Globals.Exists(c.expPrefix(name.Text))
+}
+
 func (c *compiler) pkgPrefix(key string) string {
 	if c.PackageName == "" {
 		return key
@@ -598,7 +607,7 @@ func (c *compiler) compile(tok *token) []instruction {
 		res = append(res, c.compileAll(tok.Tokens[callArguments].Tokens)...)
 		if slices.Contains([]string{"byte", "uint8", "int8", "int", "int32", "rune", "uint32", "uint", "int64", "uint64", "int16", "uint16", "float64", "string", "[]"}, tok.Tokens[callName].Symbol) {
 			res = append(res, instruction{Code: codeConvert, A: reg(convMap[tok.Tokens[callName].Symbol])})
-		} else if code := builtinMap[tok.Tokens[callName].Text]; code != 0 {
+		} else if code := builtinMap[tok.Tokens[callName].Text]; code != 0 && !c.shadowsBuiltin(tok.Tokens[callName]) {
 			ellipsis := 0
 			args := tok.Tokens[callArguments].Tokens
 			if len(args) > 0 && args[len(args)-1].Symbol == "..." {
